@@ -156,6 +156,99 @@ func init() {
 	intrinsics["reflect.ValueOf"] = func(e *Engine, st *State, th *Thread, args []Value, pos token.Pos) Value {
 		return ReflValV{iface: args[0].(IfaceV)}
 	}
+	intrinsics["reflect.TypeOf"] = func(e *Engine, st *State, th *Thread, args []Value, pos token.Pos) Value {
+		iv := args[0].(IfaceV)
+		if iv.t == nil {
+			return IfaceV{}
+		}
+		if sig, ok := iv.t.Underlying().(*types.Signature); ok {
+			return IfaceV{t: e.rtypeType(), v: ReflTypeV{sig: sig, typ: iv.t}}
+		}
+		return IfaceV{t: e.rtypeType(), v: ReflTypeV{typ: iv.t}}
+	}
+	intrinsics["(*reflect.rtype).Elem"] = func(e *Engine, st *State, th *Thread, args []Value, pos token.Pos) Value {
+		t := args[0].(ReflTypeV)
+		if t.typ == nil {
+			panic(goPanic{"reflect: Elem of invalid type"})
+		}
+		switch u := t.typ.Underlying().(type) {
+		case *types.Pointer:
+			return IfaceV{t: e.rtypeType(), v: ReflTypeV{typ: u.Elem()}}
+		case *types.Slice:
+			return IfaceV{t: e.rtypeType(), v: ReflTypeV{typ: u.Elem()}}
+		case *types.Array:
+			return IfaceV{t: e.rtypeType(), v: ReflTypeV{typ: u.Elem()}}
+		case *types.Map:
+			return IfaceV{t: e.rtypeType(), v: ReflTypeV{typ: u.Elem()}}
+		case *types.Chan:
+			return IfaceV{t: e.rtypeType(), v: ReflTypeV{typ: u.Elem()}}
+		}
+		panic(goPanic{"reflect: Elem of invalid type " + t.typ.String()})
+	}
+	intrinsics["(*reflect.rtype).In"] = func(e *Engine, st *State, th *Thread, args []Value, pos token.Pos) Value {
+		t := args[0].(ReflTypeV)
+		i := e.concInt(st, args[1].(*Term))
+		if t.sig == nil || i < 0 || i >= t.sig.Params().Len() {
+			panic(goPanic{"reflect: In index out of range"})
+		}
+		return IfaceV{t: e.rtypeType(), v: ReflTypeV{typ: t.sig.Params().At(i).Type()}}
+	}
+	intrinsics["(*reflect.rtype).Implements"] = func(e *Engine, st *State, th *Thread, args []Value, pos token.Pos) Value {
+		t := args[0].(ReflTypeV)
+		u, ok := args[1].(IfaceV)
+		if !ok || u.t == nil {
+			panic(goPanic{"reflect: nil type passed to Type.Implements"})
+		}
+		it, ok := u.v.(ReflTypeV).typ.Underlying().(*types.Interface)
+		if !ok {
+			panic(goPanic{"reflect: non-interface type passed to Type.Implements"})
+		}
+		return e.ts.Bool(types.Implements(t.typ, it))
+	}
+	intrinsics["(*reflect.rtype).String"] = func(e *Engine, st *State, th *Thread, args []Value, pos token.Pos) Value {
+		t := args[0].(ReflTypeV)
+		if t.typ != nil {
+			return e.strConst(t.typ.String())
+		}
+		return e.strConst("func")
+	}
+	intrinsics["reflect.New"] = func(e *Engine, st *State, th *Thread, args []Value, pos token.Pos) Value {
+		tv, ok := args[0].(IfaceV)
+		if !ok || tv.t == nil {
+			panic(goPanic{"reflect: New(nil)"})
+		}
+		t := tv.v.(ReflTypeV).typ
+		obj := st.alloc(e.zero(t))
+		return ReflValV{iface: IfaceV{t: types.NewPointer(t), v: Ptr{obj: obj}}}
+	}
+	intrinsics["(reflect.Value).Interface"] = func(e *Engine, st *State, th *Thread, args []Value, pos token.Pos) Value {
+		v := args[0].(ReflValV)
+		if v.iface.t == nil {
+			panic(goPanic{"reflect: call of reflect.Value.Interface on zero Value"})
+		}
+		return v.iface
+	}
+	intrinsics["(reflect.Value).IsNil"] = func(e *Engine, st *State, th *Thread, args []Value, pos token.Pos) Value {
+		v := args[0].(ReflValV)
+		if v.iface.t == nil {
+			panic(goPanic{"reflect: call of reflect.Value.IsNil on zero Value"})
+		}
+		switch x := v.iface.v.(type) {
+		case Ptr:
+			return e.ts.Bool(x.obj == 0)
+		case MapV:
+			return e.ts.Bool(x.obj == 0)
+		case ChanV:
+			return e.ts.Bool(x.obj == 0)
+		case SliceV:
+			return e.ts.Bool(x.obj == 0)
+		case FuncV:
+			return e.ts.Bool(x.fn == nil && x.bi == nil)
+		case IfaceV:
+			return e.ts.Bool(x.t == nil)
+		}
+		panic(goPanic{"reflect: call of reflect.Value.IsNil on " + v.iface.t.String() + " Value"})
+	}
 	intrinsics["(reflect.Value).MethodByName"] = func(e *Engine, st *State, th *Thread, args []Value, pos token.Pos) Value {
 		v := args[0].(ReflValV)
 		name := e.mustConstString(st, args[1])
@@ -222,7 +315,14 @@ func init() {
 			panic(goPanic{"reflect: call of reflect.Value.Call on non-method Value"})
 		}
 		in := args[1].(SliceV)
-		if e.concInt(st, in.len) != 0 {
+		nin := e.concInt(st, in.len)
+		if nin < v.method.Signature.Params().Len() {
+			panic(goPanic{"reflect: Call with too few input arguments"})
+		}
+		if nin > v.method.Signature.Params().Len() && !v.method.Signature.Variadic() {
+			panic(goPanic{"reflect: Call with too many input arguments"})
+		}
+		if nin != 0 {
 			panic(engErr("reflect.Value.Call with arguments is not modelled"))
 		}
 		fr := e.newFrame(v.method, []Value{v.recv}, nil)
